@@ -1805,7 +1805,7 @@ class WBEMListener:
 
             self.logger.debug(
                 "Calling callback function %r to deliver %s with msgid %s",
-                callback.__name__, indication.classname, msgid)
+                _callback_name(callback), indication.classname, msgid)
 
             try:
                 callback(indication, host)
@@ -1815,10 +1815,10 @@ class WBEMListener:
             except BaseException as exc:  # pylint: disable=broad-except
                 self.logger.error(
                     "Callback function %r raised %s: %s",
-                    callback.__name__, exc.__class__.__name__, exc)
+                    _callback_name(callback), exc.__class__.__name__, exc)
 
             self.logger.debug(
-                "Returned from callback function %r", callback.__name__)
+                "Returned from callback function %r", _callback_name(callback))
 
     def add_callback(self, callback):
         """
@@ -1847,8 +1847,17 @@ class WBEMListener:
         """
         if callback not in self._callbacks:
             self.logger.info(
-                "Adding callback function %r", callback.__name__)
+                "Adding callback function %r", _callback_name(callback))
             self._callbacks.append(callback)
+
+
+def _callback_name(callback):
+    """
+    Return a name for a callback for use in log messages. Callables such as
+    functools.partial objects or instances of classes with a __call__()
+    method do not have a __name__ attribute.
+    """
+    return getattr(callback, '__name__', None) or repr(callback)
 
 
 def callback_interface(indication, host):
